@@ -36,6 +36,9 @@ claimed = {
  'C12': ('A+D', 'bounded exhaustive enumeration of client inputs (RTP/RTCP shape grammars, HTTP request product, sdpfrag line sequences, ill-typed signalling messages in every membership state) with a no-panic/response oracle',
    'Every byte string of stated RTP/RTCP shape grammars (all 65536 descriptor prefixes, header shapes, AV1/H264 aggregation headers, every truncation) through the real classifiers, RewritePacket, rtpDownTrack.Write, readLoop and both RTCP listeners; full product of HTTP method x path shape x credential x content-type x body x precondition through the real handlers; all sdpfrag line sequences; every signalling message type with each field absent/ill-typed/empty/unknown/huge in 13 membership states, singly and in pairs.',
    'Inputs outside the grammars; no live WebRTC session; net/http wire parsing and /ws upgrade not covered; shards that die are reported from their progress file.', 'DESIGN.md §3 C12'),
+ 'C19': ('A', 'exhaustive enumeration of all strings up to a length bound over a path-relevant alphabet through validators, group layer, HTTP handlers (three wire forms) and the disk writer, with a file-system operation log and sentinel files',
+   'Every string of <=4 (thorough: 6) symbols over {a,b,.,/,\\,%,NUL,e-acute,space} is used as group name, username, token, recordings path, static path and delete-form filename through the real group layer, the routes registered by the real webserver.Serve (plain, percent-encoded and double-encoded forms) and the real diskwriter; every file-system operation of the instrumented packages must stay inside the directory of its category, sentinels outside stay untouched and unserved, nothing is served for a name the reference predicate rejects; validGroupName/validUsername agree with the predicate on all strings of <=7/8 symbols.',
+   'Linux path semantics, no symlinks in the sandbox; os.Root operations trusted and cross-checked by sentinels; WHIP POST and the websocket upgrade not driven.', 'DESIGN.md §3 C19'),
  'C14': ('D', 'explicit-state BFS over membership/moderation/setdata sequences and detached-task firings through the real handlers; views rebuilt with protocol.js semantics',
    'BFS over join/leave/disconnect/kick/op/unop/present/unpresent/setdata by three clients in two groups, with lazy variants (message handled while queues are non-empty) and explicit firing of detached goroutines; per-message oracles (no event from another group, one delete per departure) and, at quiescence, every member view == Group.GetClients with usernames, permissions and data.',
    'Trusted mirror: clientLoop dispatch; per-message bookkeeping only on histories without lazy steps.', 'DESIGN.md §3 C14'),
